@@ -2,3 +2,4 @@ import Props.C15
 import Props.C14
 import Props.C17
 import Props.C20
+import Props.C19
